@@ -81,7 +81,7 @@ Laws(c) ==
       Tr   == TLCEval([i \in Idx(c) |-> [j \in Idx(c) |-> TransOfC(CD[i], CD[j])]])
       Sc   == TLCEval([i \in Idx(c) |-> [j \in Idx(c) |-> ScaleOfC(CD[i], CD[j])]])
       finite   == Bad1(c, LAMBDA i, j : Fin(c, i, j), "not-finite-or-NaN")
-      nonneg   == Bad1(c, LAMBDA i, j : FLeq(FNeg(E12), Val(c, i, j)), "negative")
+      nonneg   == Bad1(c, LAMBDA i, j : FLeq(FNeg(FAdd(E12, c.zerotol)), Val(c, i, j)), "negative")    \* (zerotol: the session's stated rounding allowance)
       ident    == Bad1(c, LAMBDA i, j : Same[i][j] => FLeq(Val(c, i, j), c.zerotol), "nonzero-between-reorderings")
       symm     == Bad1(c, LAMBDA i, j : FCloseRel(Val(c, i, j), Val(c, j, i), FAdd(E12, c.zerotol), RelTol), "asymmetric")
       tri      == LET S == {<<i, j, l>> \in Idx(c) \X Idx(c) \X Idx(c) : ~LeqT(Val(c, i, l), FAdd(FAdd(Val(c, i, j), Val(c, j, l)), c.zerotol))}
@@ -96,8 +96,8 @@ Laws(c) ==
                   LET S == {<<i, j, l>> \in Idx(c) \X Idx(c) \X Idx(c) : i # j /\ Sc[i][j] > 1 /\
                               \E m \in Idx(c) : Sc[l][m] = Sc[i][j] /\ ~FCloseRel(FMulInt(Val(c, i, l), Sc[i][j]), Val(c, j, m), FAdd(E12, FMulInt(c.zerotol, Sc[i][j] + 1)), RelTol)}
                   IN IF S = {} THEN <<"ok", 0, 0, 0>> ELSE <<"not-linear-under-rescaling">> \o FirstOf(S)
-      empty    == IF c.fn = "bott" THEN Bad1(c, LAMBDA i, j : Len(CD[j]) = 0 => Near(FMulInt(Val(c, i, j), 2), FInt(MaxPers(CD[i]))), "bottleneck-to-empty-not-half-max-persistence")
-                  ELSE IF c.fn = "wass" THEN Bad1(c, LAMBDA i, j : Len(CD[j]) = 0 => Near(Val(c, i, j), FMulInt(InvSqrt2, TotalPers(CD[i]))), "wasserstein-to-empty-not-total-persistence-over-sqrt2")
+      empty    == IF c.fn = "bott" THEN Bad1(c, LAMBDA i, j : Len(CD[j]) = 0 => FCloseRel(FMulInt(Val(c, i, j), 2), FInt(MaxPers(CD[i])), FAdd(E12, FMulInt(c.zerotol, 2)), RelTol), "bottleneck-to-empty-not-half-max-persistence")
+                  ELSE IF c.fn = "wass" THEN Bad1(c, LAMBDA i, j : Len(CD[j]) = 0 => FCloseRel(Val(c, i, j), FMulInt(InvSqrt2, TotalPers(CD[i])), FAdd(E12, c.zerotol), RelTol), "wasserstein-to-empty-not-total-persistence-over-sqrt2")
                   ELSE <<"ok", 0, 0, 0>>
       cmp      == IF c.fn = "wass" /\ c.BT # <<>> THEN Bad1(c, LAMBDA i, j : c.BT[i][j][1] = 1 => LeqT(c.BT[i][j][2], Val(c, i, j)), "bottleneck-exceeds-wasserstein")
                   ELSE IF c.fn = "heat" /\ c.W # <<>> THEN Bad1(c, LAMBDA i, j : c.W[i][j][1] = 1 => LeqT(FMul(FMul(FMulInt(Val(c, i, j), 4), c.sigma), SqrtPi), FAdd(c.W[i][j][2], FMul(FMul(FMulInt(c.zerotol, 4), c.sigma), SqrtPi))), "heat-exceeds-wasserstein-over-4-sigma-sqrt-pi")
